@@ -255,6 +255,10 @@ func (f fetcher) FetchSourcePackage(ctx context.Context, sourceType string, u *u
 				}
 				tgt = strings.ReplaceAll(tgt, "@SIBLINGPKG@", sib)
 			}
+			if strings.Contains(tgt, "@TMP") {
+				tgt = strings.ReplaceAll(strings.ReplaceAll(tgt, "@TMPBASE@", filepath.Base(targetDir)), "@TMPABS@", targetDir)
+				r.out.Probe("hostile-link-names-the-temporary-directory")
+			}
 			err = os.Symlink(tgt, full)
 		case "fifo":
 			err = syscall.Mkfifo(full, 0o644)
